@@ -125,6 +125,10 @@ class C11(Prop):
             for name in names:
                 ntab = ops[name][0]
                 ts = self._tables(rng, ntab)
+                if name in ('join', 'leftjoin', 'rightjoin', 'outerjoin', 'antijoin', 'lookupjoin') and rng.random() < 0.4:
+                    # ragged rows (the key cell is always there): the operators square their inputs up, whatever the strategy
+                    ts = tuple((t[0],) + tuple(r[:rng.choice([1, 2])] if rng.random() < 0.3 else
+                                               (r + ('extra',) if rng.random() < 0.2 else r) for r in t[1:]) for t in ts)
                 nmax = max(len(t) for t in ts)
                 key = None if name in KEYLESS else rng.choice(['k', 'k', ('k', 'a')])
                 if name in ('join', 'leftjoin', 'rightjoin', 'outerjoin', 'antijoin', 'lookupjoin', 'mergesort'):
